@@ -199,7 +199,7 @@ def has_dup(line):
 
 def validate(ctx, module, execs, to_events, what, batch=300, key=None):
     """Trace-validate executions; returns number of violations reported.  key: known-finding key for programs of
-    the class `key` describes (decided by the caller through key(exec))."""
+    the class `key` describes (decided by the caller through key(exec, failure))."""
     if not execs:
         return 0
     evl = [to_events(x) for x in execs]
@@ -208,7 +208,7 @@ def validate(ctx, module, execs, to_events, what, batch=300, key=None):
         x = execs[f.index]
         ctx.violation("%s: %s" % (what, json.dumps({"program": x.line, "config": x.cfg, "detail": f.describe()})[:1800]),
                       {"module": module, "events": f.execution, "program": x.line, "config": x.cfg, "detail": f.describe()},
-                      key=key(x) if key else None)
+                      key=key(x, f) if key else None)
     return len(fails)
 
 
@@ -249,7 +249,7 @@ def run(ctx):
     else:
         progs = gen_programs(ctx, d, "a", 3, 12, 3, 500) + gen_programs(ctx, d, "b", 2, 8, 2, 300) + \
             gen_programs(ctx, d, "c", 4, 14, 3, 400)
-        dups = gen_programs(ctx, d, "d", 2, 6, 3, 100, dup=True) + gen_programs(ctx, d, "e", 3, 10, 4, 100, dup=True)
+        dups = gen_programs(ctx, d, "d", 2, 6, 3, 100, dup=True) + gen_programs(ctx, d, "e", 2, 8, 4, 100, dup=True)
         configs = CONFIGS_ALL
     dups = [p for p in dups if has_dup(prog_line(p))]
     ctx.extra["programs_from_tlc"] = len(progs) + len(dups)
@@ -271,7 +271,7 @@ def run(ctx):
     for k, (s, t) in enumerate(configs[:2] if ctx.quick else configs[:8]):
         dsingle += run_batch(ctx, exe, lines_for(dups, WINDOWS, rot=k, sp=(30, 120)), "d_%s_%d" % (s, t), threads=t, sched=s,
                              timeout=900, max_restarts=len(dups), env={"VERIF_ALARM": "10"})
-    dupkey = lambda x: KEY_DUP if has_dup(x.line) else None
+    dupkey = lambda x, f: KEY_DUP if has_dup(x.line) else None
     nv = validate(ctx, "SeqTrace", single + dsingle, single_events,
                   "one-process DTD execution is not a behaviour of Seq.tla (values / ordering)", key=dupkey)
     # ---- several processes: values only ------------------------------------------------------------------------------
